@@ -10,6 +10,7 @@ import (
 
 	"k8s.io/klog/v2"
 
+	"verif/mc/families"
 	"verif/mc/registry"
 )
 
@@ -22,6 +23,7 @@ func Main() {
 	fs := flag.NewFlagSet("check", flag.ExitOnError)
 	tier := fs.String("tier", "quick", "quick|thorough")
 	replay := fs.String("replay", "", "replay file")
+	show := fs.String("show", "", "diagnostic: print one cycle's decisions for scenarios whose name contains this")
 	_ = fs.Parse(os.Args[2:])
 	if t := os.Getenv("VERIF_TIER"); t != "" && !flagSet(fs, "tier") {
 		*tier = t
@@ -37,6 +39,13 @@ func Main() {
 		sort.Strings(ids)
 		fmt.Println(ids)
 		return
+	}
+	if *show != "" {
+		if f, ok := families.Shows[id]; ok {
+			os.Exit(f(*tier, *show))
+		}
+		fmt.Fprintf(os.Stderr, "no --show for %s\n", id)
+		os.Exit(2)
 	}
 	if *replay != "" {
 		if f, ok := registry.Replays[id]; ok {
